@@ -744,6 +744,23 @@ class Interp:
         fr = Frame(frame.fkey, frame.module, parent=frame)
         rec(0, fr)
 
+    def guarded_comp(self, node, frame):
+        """[elt for x in <concrete iterable> if cond]: evaluates the real element and
+        condition expressions for every item WITHOUT splitting the path on the
+        condition; the result is the list of (guard, element) pairs
+        (Struct GuardedList).  Contracts opt in per comprehension (their consumers
+        have to understand guarded lists)."""
+        if len(node.generators) != 1:
+            raise Unsupported("guarded comprehension with several generators")
+        g = node.generators[0]
+        fr = Frame(frame.fkey, frame.module, parent=frame)
+        out = []
+        for item in self.iterate_concrete(self.eval(g.iter, fr)):
+            self.assign_target(g.target, item, fr)
+            guard = zand(*[self.truth_term(self.eval(c, fr)) for c in g.ifs]) if g.ifs else True
+            out.append((guard, self.eval(node.elt, fr)))
+        return Struct("GuardedList", items=out)
+
     def e_ListComp(self, node, frame):
         hook = self._comp_model(node, frame)
         if hook is not None:
